@@ -12,6 +12,9 @@
 (*                            (Run, token senders, signal senders) that were  *)
 (*                            alive before the call and still when it returned *)
 (*   run_ret                  Run returned                                    *)
+(*   run2_call / run2_ret {err}   Run was called again while / after the first *)
+(*                            Run (rejected: err); no law of its own, but all  *)
+(*                            other laws go on unchanged and Close must return *)
 (*   quiescent {recv}         nothing can move: no call in flight, every      *)
 (*                            goroutine of the limiter blocked; recv: the      *)
 (*                            consumer is waiting in its receive (a prompt     *)
@@ -140,6 +143,8 @@ CNext(c, e) ==
          [] e.ev = "close_call" -> With([c EXCEPT !.canStop = TRUE], c.S)
          [] e.ev = "close_ret"  -> CCloseRet(c, e)
          [] e.ev = "run_ret"    -> CRunRet(c, e)
+         [] e.ev = "run2_call"  -> c      \* Run called again on the running (or ended) limiter: the statement is
+         [] e.ev = "run2_ret"   -> c      \* about the running limiter, whose behaviour this must not change
          [] e.ev = "quiescent"  -> CQuiescent(c, e)
          [] e.ev = "stuck"      -> CStuck(c, e)
 =============================================================================
